@@ -7,9 +7,12 @@
 (* The judge replays the calls through FontCache!Step with the code's      *)
 (* cache keys (CodeKeys = TRUE, HasFV = HasImages = TRUE: the most         *)
 (* pessimistic font; no failed load is stored, ReadCache and lookup cache  *)
-(* keyed by absolute position and by index, as the code does).  The "Init" *)
-(* event of a case carries the font descriptor (family, damaged tables,    *)
-(* layout of the lookups whose parsing is modelled).                       *)
+(* keyed by absolute position and by index, every change of the image      *)
+(* filter forgets the selected image tables, cached_lookups is unbounded,  *)
+(* as the code does).  The "Init" event of a case carries the font         *)
+(* descriptor (family, damaged tables, layout of the lookups whose parsing *)
+(* is modelled, image tables).  Histories may be of any length: the        *)
+(* model's caches are unbounded maps.                                      *)
 (*   differs = FALSE                    : conforms (the property)          *)
 (*   differs = TRUE and the model has a stale read : IMPURE line naming    *)
 (*        the slot(s) - a violation of C03 explained by the cache model    *)
@@ -25,7 +28,8 @@ tvars == <<l, st>>
 
 TInit == l = 1 /\ st = InitState
 
-FontOf(e) == [fam |-> e.a.font.fam, damaged |-> e.a.font.damaged, lookups |-> e.a.font.lookups]
+FontOf(e) == [fam |-> e.a.font.fam, damaged |-> e.a.font.damaged, lookups |-> e.a.font.lookups,
+              imgs |-> e.a.font.imgs, sub |-> e.a.font.sub]
 
 TNext ==
   /\ l <= Len(Rec)
